@@ -148,7 +148,15 @@ func (f *Store) DeletePrefix(prefix kvstore.KeyPrefix) (err error) {
 	return err
 }
 
-func (f *Store) Flush() error { return f.Inner.Flush() }
+func (f *Store) Flush() (err error) {
+	if f.before("Flush") {
+		return ErrInjected
+	}
+	f.do(func() { err = f.Inner.Flush() })
+	f.after("Flush")
+	return err
+}
+
 func (f *Store) Close() error { return f.Inner.Close() }
 
 func (f *Store) Batched() (kvstore.BatchedMutations, error) {
@@ -168,8 +176,8 @@ type batch struct {
 }
 
 func (b *batch) Set(k kvstore.Key, v kvstore.Value) error { return b.b.Set(k, v) }
-func (b *batch) Delete(k kvstore.Key) error              { return b.b.Delete(k) }
-func (b *batch) Cancel()                                 { b.b.Cancel() }
+func (b *batch) Delete(k kvstore.Key) error               { return b.b.Delete(k) }
+func (b *batch) Cancel()                                  { b.b.Cancel() }
 func (b *batch) Commit() (err error) {
 	if b.f.before("Commit") {
 		b.b.Cancel()
